@@ -86,169 +86,272 @@ func checkGuards(r *Reporter, p *Prog, rule string, rows []GuardRow) {
 		bad   []string
 		first string
 	}
-	aggs := map[aggKey]*agg{}
-	touched := map[string]int{} // Type.field -> accesses seen
+	var aggs map[aggKey]*agg
+	var touched map[string]int // Type.field -> accesses seen
 
-	for _, pkg := range pkgList {
-		pk := p.Pkg(pkg)
-		info := pk.TypesInfo
-		for _, fd := range p.AllFuncDecls(pkg) {
-			if fd.Body == nil || strings.HasSuffix(p.Fset.Position(fd.Pos()).Filename, "_test.go") {
-				continue
-			}
-			fkey := funcKey(pkg, fd)
-			recvT := recvTypeName(fd)
-			entry := LockSet{}
-			var recvPath string
-			if fd.Recv != nil && len(fd.Recv.List) > 0 && len(fd.Recv.List[0].Names) > 0 {
-				if obj := info.Defs[fd.Recv.List[0].Names[0]]; obj != nil {
-					recvPath = fmt.Sprintf("%s@%d", obj.Name(), obj.Pos())
+	// Caller-holds helpers are inferred, not only tabled: an UNEXPORTED method of the guarded type
+	// whose only unprotected accesses go through its own receiver is accepted as a helper that
+	// must be called with the lock held, and the obligation moves to every call site (checked by
+	// the same rule, transitively). It must be called directly (no method value, no go/defer) and
+	// have at least one call site. Extracting the body of a critical section into such a helper
+	// is therefore behaviour-neutral for this rule, while a call site without the lock is reported.
+	inferred := map[*GuardRow]map[string]LockMode{}
+	for i := range rows {
+		inferred[&rows[i]] = map[string]LockMode{}
+	}
+	chOf := func(row *GuardRow, m string) (LockMode, bool) {
+		if v, ok := row.CH[m]; ok {
+			return v, true
+		}
+		v, ok := inferred[row][m]
+		return v, ok
+	}
+	type fnNeed struct {
+		row      *GuardRow
+		mode     LockMode
+		recvOnly bool
+	}
+	var needs map[string]*fnNeed          // funcKey -> unprotected receiver accesses
+	var callSites map[string]int          // "Type.method" -> direct call sites seen
+	var escapes map[string]string         // "Type.method" -> why it cannot be a helper
+	fnDecls := map[string]*ast.FuncDecl{} // funcKey -> decl
+	for round := 0; ; round++ {
+		aggs = map[aggKey]*agg{}
+		touched = map[string]int{}
+		needs = map[string]*fnNeed{}
+		callSites = map[string]int{}
+		escapes = map[string]string{}
+		for _, pkg := range pkgList {
+			pk := p.Pkg(pkg)
+			info := pk.TypesInfo
+			for _, fd := range p.AllFuncDecls(pkg) {
+				if fd.Body == nil || strings.HasSuffix(p.Fset.Position(fd.Pos()).Filename, "_test.go") {
+					continue
 				}
-			}
-			for i := range rows {
-				row := &rows[i]
-				if row.Pkg == pkg && row.Type == recvT {
-					if m, ok := row.CH[fd.Name.Name]; ok && recvPath != "" {
-						entry = entry.with(recvPath+"."+row.Mutex, m)
+				fkey := funcKey(pkg, fd)
+				fnDecls[fkey] = fd
+				recvT := recvTypeName(fd)
+				entry := LockSet{}
+				var recvPath string
+				if fd.Recv != nil && len(fd.Recv.List) > 0 && len(fd.Recv.List[0].Names) > 0 {
+					if obj := info.Defs[fd.Recv.List[0].Names[0]]; obj != nil {
+						recvPath = fmt.Sprintf("%s@%d", obj.Name(), obj.Pos())
 					}
 				}
-			}
-			fresh := freshLocals(info, fd.Body)
-			seen := map[ast.Node]bool{}
-			opts := &FlowOpts{Info: info, SyncCallee: syncCalleeDefault(info)}
-			AnalyzeLocks(fd.Body, entry, opts, func(n ast.Node, stack []ast.Node, held LockSet) {
-				switch x := n.(type) {
-				case *ast.SelectorExpr:
-					sel := info.Selections[x]
-					if sel == nil || sel.Kind() != types.FieldVal {
-						return
+				for i := range rows {
+					row := &rows[i]
+					if row.Pkg == pkg && row.Type == recvT {
+						if m, ok := chOf(row, fd.Name.Name); ok && recvPath != "" {
+							entry = entry.with(recvPath+"."+row.Mutex, m)
+						}
 					}
-					fv, _ := sel.Obj().(*types.Var)
-					if fv == nil {
-						return
-					}
-					gf, ok := byVar[fv.Origin()]
-					if !ok {
-						return
-					}
-					if seen[x] {
-						return
-					}
-					seen[x] = true
-					touched[gf.row.Type+"."+gf.field]++
-					if ro := rootObj(info, x.X); ro != nil && fresh[ro] {
-						return
-					}
-					muts := map[string]bool{}
-					for _, m := range gf.row.Mutators[gf.field] {
-						muts[m] = true
-					}
-					write := isWriteAccess(x, stack, muts)
-					if !write && gf.row.WOnly {
-						return
-					}
-					exKey := fd.Name.Name
-					if recvT != "" {
-						exKey = recvT + "." + fd.Name.Name
-					}
-					if _, ex := gf.row.Exempt[exKey]; ex {
-						return
-					}
-					if _, ok := gf.row.ReadsOK[gf.field]; ok && !write {
-						return
-					}
-					need := ModeR
-					modeS := "R"
-					if write {
-						need = ModeW
-						modeS = "W"
-					}
-					k := aggKey{fkey, gf.row.Type + "." + gf.field, modeS}
-					a := aggs[k]
-					if a == nil {
-						a = &agg{first: p.posStr(x.Pos())}
-						aggs[k] = a
-					}
-					a.n++
-					base, okp := pathOf(info, x.X)
-					if !okp {
-						a.bad = append(a.bad, fmt.Sprintf("%s: base of access is not an access path; cannot identify its mutex", p.posStr(x.Pos())))
-						return
-					}
-					base += embeddedChain(sel, len(sel.Index())-1)
-					want := base + "." + gf.row.Mutex
-					if gf.row.ViaRecvType != "" {
-						if recvT != gf.row.ViaRecvType || recvPath == "" {
-							a.bad = append(a.bad, fmt.Sprintf("%s: %s.%s is accessed outside a method of %s, whose mutex guards it", p.posStr(x.Pos()), gf.row.Type, gf.field, gf.row.ViaRecvType))
+				}
+				fresh := freshLocals(info, fd.Body)
+				seen := map[ast.Node]bool{}
+				opts := &FlowOpts{Info: info, SyncCallee: syncCalleeDefault(info)}
+				AnalyzeLocks(fd.Body, entry, opts, func(n ast.Node, stack []ast.Node, held LockSet) {
+					switch x := n.(type) {
+					case *ast.SelectorExpr:
+						sel := info.Selections[x]
+						if sel != nil && sel.Kind() == types.MethodVal {
+							// a method value that is not called on the spot escapes
+							isCallee := false
+							for i := len(stack) - 1; i >= 0; i-- {
+								if _, isParen := stack[i].(*ast.ParenExpr); isParen {
+									continue
+								}
+								if c, ok := stack[i].(*ast.CallExpr); ok && ast.Unparen(c.Fun) == ast.Expr(x) {
+									isCallee = true
+								}
+								break
+							}
+							if fn, _ := sel.Obj().(*types.Func); fn != nil && !isCallee {
+								if rt := namedOfRecv(fn.Origin()); rt != nil {
+									escapes[rt.Obj().Name()+"."+fn.Name()] = "used as a method value at " + p.posStr(x.Pos())
+								}
+							}
 							return
 						}
-						want = recvPath + "." + gf.row.Mutex
-					}
-					if held[want] < need {
-						a.bad = append(a.bad, fmt.Sprintf("%s: %s of %s needs %s held %s, held: %s", p.posStr(x.Pos()), map[bool]string{true: "write", false: "read"}[write], displayPath(base)+"."+gf.field, displayPath(want), modeS, held))
-					}
-				case *ast.CallExpr:
-					// call of a caller-holds helper
-					se, ok := x.Fun.(*ast.SelectorExpr)
-					if !ok {
-						return
-					}
-					sel := info.Selections[se]
-					if sel == nil || sel.Kind() != types.MethodVal {
-						return
-					}
-					fn, _ := sel.Obj().(*types.Func)
-					if fn == nil {
-						return
-					}
-					fn = fn.Origin()
-					rt := namedOfRecv(fn)
-					if rt == nil || rt.Obj().Pkg() == nil {
-						return
-					}
-					for i := range rows {
-						row := &rows[i]
-						if fullPath(row.Pkg) != rt.Obj().Pkg().Path() || row.Type != rt.Obj().Name() {
-							continue
+						if sel == nil || sel.Kind() != types.FieldVal {
+							return
 						}
-						need, ok := row.CH[fn.Name()]
+						fv, _ := sel.Obj().(*types.Var)
+						if fv == nil {
+							return
+						}
+						gf, ok := byVar[fv.Origin()]
 						if !ok {
-							continue
+							return
 						}
 						if seen[x] {
 							return
 						}
 						seen[x] = true
-						k := aggKey{fkey, row.Type + "." + fn.Name() + "()", "CH-" + need.String()}
+						touched[gf.row.Type+"."+gf.field]++
+						if ro := rootObj(info, x.X); ro != nil && fresh[ro] {
+							return
+						}
+						muts := map[string]bool{}
+						for _, m := range gf.row.Mutators[gf.field] {
+							muts[m] = true
+						}
+						write := isWriteAccess(x, stack, muts)
+						if !write && gf.row.WOnly {
+							return
+						}
+						exKey := fd.Name.Name
+						if recvT != "" {
+							exKey = recvT + "." + fd.Name.Name
+						}
+						if _, ex := gf.row.Exempt[exKey]; ex {
+							return
+						}
+						if _, ok := gf.row.ReadsOK[gf.field]; ok && !write {
+							return
+						}
+						need := ModeR
+						modeS := "R"
+						if write {
+							need = ModeW
+							modeS = "W"
+						}
+						k := aggKey{fkey, gf.row.Type + "." + gf.field, modeS}
 						a := aggs[k]
 						if a == nil {
 							a = &agg{first: p.posStr(x.Pos())}
 							aggs[k] = a
 						}
 						a.n++
-						if ro := rootObj(info, se.X); ro != nil && fresh[ro] {
-							return
-						}
-						exKey2 := fd.Name.Name
-						if recvT != "" {
-							exKey2 = recvT + "." + fd.Name.Name
-						}
-						if _, ex := row.Exempt[exKey2]; ex {
-							return
-						}
-						base, okp := pathOf(info, se.X)
+						base, okp := pathOf(info, x.X)
 						if !okp {
-							a.bad = append(a.bad, fmt.Sprintf("%s: receiver of caller-holds helper is not an access path", p.posStr(x.Pos())))
+							a.bad = append(a.bad, fmt.Sprintf("%s: base of access is not an access path; cannot identify its mutex", p.posStr(x.Pos())))
 							return
 						}
 						base += embeddedChain(sel, len(sel.Index())-1)
-						want := base + "." + row.Mutex
+						want := base + "." + gf.row.Mutex
+						if gf.row.ViaRecvType != "" {
+							if recvT != gf.row.ViaRecvType || recvPath == "" {
+								a.bad = append(a.bad, fmt.Sprintf("%s: %s.%s is accessed outside a method of %s, whose mutex guards it", p.posStr(x.Pos()), gf.row.Type, gf.field, gf.row.ViaRecvType))
+								return
+							}
+							want = recvPath + "." + gf.row.Mutex
+						}
 						if held[want] < need {
-							a.bad = append(a.bad, fmt.Sprintf("%s: call of caller-holds helper %s needs %s held %s, held: %s", p.posStr(x.Pos()), fn.Name(), displayPath(want), need, held))
+							a.bad = append(a.bad, fmt.Sprintf("%s: %s of %s needs %s held %s, held: %s", p.posStr(x.Pos()), map[bool]string{true: "write", false: "read"}[write], displayPath(base)+"."+gf.field, displayPath(want), modeS, held))
+							fnN := needs[fkey]
+							if fnN == nil {
+								fnN = &fnNeed{row: gf.row, recvOnly: true}
+								needs[fkey] = fnN
+							}
+							if need > fnN.mode {
+								fnN.mode = need
+							}
+							if recvPath == "" || want != recvPath+"."+gf.row.Mutex || recvT != gf.row.Type || fnN.row != gf.row {
+								fnN.recvOnly = false
+							}
+						}
+					case *ast.CallExpr:
+						// call of a caller-holds helper
+						se, ok := x.Fun.(*ast.SelectorExpr)
+						if !ok {
+							return
+						}
+						sel := info.Selections[se]
+						if sel == nil || sel.Kind() != types.MethodVal {
+							return
+						}
+						fn, _ := sel.Obj().(*types.Func)
+						if fn == nil {
+							return
+						}
+						fn = fn.Origin()
+						rt := namedOfRecv(fn)
+						if rt == nil || rt.Obj().Pkg() == nil {
+							return
+						}
+						if !seen[x] {
+							mk := rt.Obj().Name() + "." + fn.Name()
+							callSites[mk]++
+							if len(stack) >= 1 {
+								switch stack[len(stack)-1].(type) {
+								case *ast.GoStmt:
+									escapes[mk] = "started with go at " + p.posStr(x.Pos())
+								case *ast.DeferStmt:
+									escapes[mk] = "deferred at " + p.posStr(x.Pos())
+								}
+							}
+						}
+						for i := range rows {
+							row := &rows[i]
+							if fullPath(row.Pkg) != rt.Obj().Pkg().Path() || row.Type != rt.Obj().Name() {
+								continue
+							}
+							need, ok := chOf(row, fn.Name())
+							if !ok {
+								continue
+							}
+							if seen[x] {
+								return
+							}
+							seen[x] = true
+							k := aggKey{fkey, row.Type + "." + fn.Name() + "()", "CH-" + need.String()}
+							a := aggs[k]
+							if a == nil {
+								a = &agg{first: p.posStr(x.Pos())}
+								aggs[k] = a
+							}
+							a.n++
+							if ro := rootObj(info, se.X); ro != nil && fresh[ro] {
+								return
+							}
+							exKey2 := fd.Name.Name
+							if recvT != "" {
+								exKey2 = recvT + "." + fd.Name.Name
+							}
+							if _, ex := row.Exempt[exKey2]; ex {
+								return
+							}
+							base, okp := pathOf(info, se.X)
+							if !okp {
+								a.bad = append(a.bad, fmt.Sprintf("%s: receiver of caller-holds helper is not an access path", p.posStr(x.Pos())))
+								return
+							}
+							base += embeddedChain(sel, len(sel.Index())-1)
+							want := base + "." + row.Mutex
+							if held[want] < need {
+								a.bad = append(a.bad, fmt.Sprintf("%s: call of caller-holds helper %s needs %s held %s, held: %s", p.posStr(x.Pos()), fn.Name(), displayPath(want), need, held))
+							}
 						}
 					}
-				}
-			})
+				})
+			}
+		}
+		// infer further caller-holds helpers from this round's failures
+		changed := false
+		for fkey, fnN := range needs {
+			fd := fnDecls[fkey]
+			if fd == nil || !fnN.recvOnly || fd.Name.IsExported() || fd.Recv == nil {
+				continue
+			}
+			mk := fnN.row.Type + "." + fd.Name.Name
+			if _, tabled := fnN.row.CH[fd.Name.Name]; tabled {
+				continue
+			}
+			if escapes[mk] != "" || callSites[mk] == 0 {
+				continue
+			}
+			if cur, ok := inferred[fnN.row][fd.Name.Name]; !ok || cur < fnN.mode {
+				inferred[fnN.row][fd.Name.Name] = fnN.mode
+				changed = true
+			}
+		}
+		if !changed || round > 20 {
+			break
+		}
+	}
+	for row, m := range inferred {
+		for name, mode := range m {
+			r.Advise(fmt.Sprintf("%s: %s.%s.%s inferred as caller-holds helper (%s.%s held %s at every call site)", rule, row.Pkg, row.Type, name, row.Type, row.Mutex, mode))
 		}
 	}
 	var keys []aggKey
